@@ -96,7 +96,9 @@ impl Drop for Output {
         let _ = match self {
             Output::StdOut => Ok(()),
             Output::Named(target) => std::fs::remove_file(target),
-            Output::InPlace(target) => std::fs::remove_file(target),
+            // The file read in place is either the temporary copy, which `Input` removes,
+            // or (with --no-copy) the user's original file, which must never be removed.
+            Output::InPlace(_) => Ok(()),
         };
     }
 }
